@@ -9,6 +9,29 @@ pub use {error::SchemaError, safe::*, self_referential::Schema};
 
 pub(crate) use union_variants_per_type_lookup::UnionVariantLookupKey;
 
+/// Verification-only instrumentation (compiled only with
+/// `--cfg ten0_serde_avro_fast_verif`): a per-thread counter of the steps taken by
+/// the recursive schema traversals (cycle check, canonical form, JSON rendering,
+/// parsing), so that an external harness can bound their work deterministically.
+#[cfg(ten0_serde_avro_fast_verif)]
+pub mod verif_hooks {
+	use std::cell::Cell;
+	thread_local! {
+		static STEPS: Cell<u64> = const { Cell::new(0) };
+	}
+	/// Reset the step counter of the current thread
+	pub fn reset_steps() {
+		STEPS.with(|s| s.set(0));
+	}
+	/// Steps counted on the current thread since the last reset
+	pub fn steps() -> u64 {
+		STEPS.with(|s| s.get())
+	}
+	pub(crate) fn tick() {
+		STEPS.with(|s| s.set(s.get().wrapping_add(1)));
+	}
+}
+
 impl std::str::FromStr for Schema {
 	type Err = SchemaError;
 	fn from_str(s: &str) -> Result<Self, Self::Err> {
